@@ -82,14 +82,14 @@ def events(seed, full=True):
     ev.append(('extend_items', 'second-wrong-length', (L[2], L[1])))
     # --- derivations
     for d in ('drop.iloc[rows]', 'drop[first]', 'to_frame', 'to_frame_go', 'iloc[:, :]', 'getitem[first]', 'relabel', 'rename', 'sort_columns', 'reindex', 'mul', 'iter_series', 'transpose',
-              'set_index', 'iter_group', 'columns-static', 'deepcopy-grow', 'to_frame_go-grow'):
+              'set_index', 'iter_group', 'iter_group-list', 'iter_group-list-grow', 'columns-static', 'deepcopy-grow', 'to_frame_go-grow'):
         ev.append(('derive', d))
     # --- reads
     for r in ('values', 'shape', 'columns.values', 'dtypes', 'loc[last-col]'):
         ev.append(('read', r))
     if not full:
         # the quick tier keeps every growth call and fault, the derivations that can share state, and two reads
-        keep = {'drop.iloc[rows]', 'to_frame', 'to_frame_go', 'iloc[:, :]', 'rename', 'relabel', 'sort_columns', 'columns-static', 'to_frame_go-grow', 'deepcopy-grow', 'values', 'columns.values'}
+        keep = {'iter_group-list', 'iter_group-list-grow', 'drop.iloc[rows]', 'to_frame', 'to_frame_go', 'iloc[:, :]', 'rename', 'relabel', 'sort_columns', 'columns-static', 'to_frame_go-grow', 'deepcopy-grow', 'values', 'columns.values'}
         ev = [e for e in ev if e[0] not in ('derive', 'read') or e[1] in keep]
         ev = [e for e in ev if e not in (('set', L[2], 'frame'), ('set', L[2], 'array-2d'), ('extend', 'frame-empty', ()), ('set', L[2], 'list'))]
     return ev
@@ -320,6 +320,13 @@ def run_case(case, ctx):
                         if not model.labels or seed.startswith('hier'):
                             continue
                         d = tuple(g for _, g in f.iter_group_items(model.labels[0]))
+                    elif name in ('iter_group-list', 'iter_group-list-grow'):
+                        # a list of key columns goes through the unique-rows route (a single non-object key is grouped by sorting)
+                        if not model.labels or seed.startswith('hier'):
+                            continue
+                        d = tuple(g for _, g in f.iter_group_items([model.labels[0]]))
+                        if name.endswith('grow') and d:
+                            d[0]['ZZ' if seed != 'auto-columns' else 99] = np.array([0] * len(d[0]))    # a group of a FrameGO is a FrameGO: growing it is its own business
                     elif name == 'columns-static':
                         d = f.columns._IMMUTABLE_CONSTRUCTOR(f.columns)
                     elif name in ('deepcopy-grow', 'to_frame_go-grow'):
@@ -368,25 +375,26 @@ def run_case(case, ctx):
             try:
                 if snap(d) != s0:
                     ctx.violation(f'isolation|derived-{name}-changed-after-source-grew', **info)
-                # every read route of a derived Frame still agrees (a shared column-to-block map would break positional routes only)
-                if isinstance(d, sf.Frame):
-                    cols_d = columns_of(d)
-                    arrs = list(d.iter_array(axis=0))
-                    if d.shape[1] != len(cols_d) or len(arrs) != len(cols_d) or len(d.columns) != len(cols_d):
-                        ctx.violation(f'isolation|derived-{name}-labels-and-data-out-of-step', **info, shape=d.shape, blocks=len(cols_d), labels=len(d.columns))
-                    else:
-                        for j, c in enumerate(cols_d):
-                            if not all(veq(x, y) for x, y in zip(d.iloc[:, j].values, c)) or not all(veq(x, y) for x, y in zip(arrs[j], c)):
-                                ctx.violation(f'isolation|derived-{name}-read-routes-disagree', **info, column=j)
+                for d in (d if isinstance(d, tuple) else (d,)):
+                    # every read route of a derived Frame still agrees (a shared column-to-block map would break positional routes only)
+                    if isinstance(d, sf.Frame):
+                        cols_d = columns_of(d)
+                        arrs = list(d.iter_array(axis=0))
+                        if d.shape[1] != len(cols_d) or len(arrs) != len(cols_d) or len(d.columns) != len(cols_d):
+                            ctx.violation(f'isolation|derived-{name}-labels-and-data-out-of-step', **info, shape=d.shape, blocks=len(cols_d), labels=len(d.columns))
+                        else:
+                            for j, c in enumerate(cols_d):
+                                if not all(veq(x, y) for x, y in zip(d.iloc[:, j].values, c)) or not all(veq(x, y) for x, y in zip(arrs[j], c)):
+                                    ctx.violation(f'isolation|derived-{name}-read-routes-disagree', **info, column=j)
+                                    break
+                    # labels the source acquired later must be unknown to what was derived before (membership is not part of the snapshot)
+                    dcols = d if isinstance(d, IndexBase) else getattr(d, 'columns', None)
+                    if dcols is not None and name not in ('transpose', 'deepcopy-grow', 'to_frame_go-grow', 'iter_group-list-grow'):
+                        held = [tuple(x) if isinstance(x, np.ndarray) else x for x in (dcols if dcols.depth > 1 else dcols.values.tolist())]
+                        for lab in model.labels:
+                            if lab not in held and lab in dcols:
+                                ctx.violation(f'isolation|derived-{name}-knows-a-label-the-source-acquired-later', **info, label=lab)
                                 break
-                # labels the source acquired later must be unknown to what was derived before (membership is not part of the snapshot)
-                dcols = d if isinstance(d, IndexBase) else getattr(d, 'columns', None)
-                if dcols is not None and name not in ('transpose', 'deepcopy-grow', 'to_frame_go-grow'):
-                    held = [tuple(x) if isinstance(x, np.ndarray) else x for x in (dcols if dcols.depth > 1 else dcols.values.tolist())]
-                    for lab in model.labels:
-                        if lab not in held and lab in dcols:
-                            ctx.violation(f'isolation|derived-{name}-knows-a-label-the-source-acquired-later', **info, label=lab)
-                            break
             except Exception as e:
                 ctx.violation(f'isolation|derived-{name}-unusable-{type(e).__name__}', **info, error=repr(e))
         return ctx.violation_count == before
